@@ -423,6 +423,10 @@ impl FixtureDatabase {
             debug!("Circular import detected for {:?}, skipping", file_path);
             return HashSet::new();
         }
+        // A result computed while other modules are already marked visited leaves out whatever
+        // is reachable only through them (the circular-import cut): it is the complete set for
+        // this file only when the traversal starts here, and only then may it be cached.
+        let traversal_starts_here = visited.is_empty();
         visited.insert(canonical_path.clone());
 
         // Get the file content first (needed for cache validation)
@@ -448,14 +452,16 @@ impl FixtureDatabase {
         let imported_fixtures = self.compute_imported_fixtures(&canonical_path, &content, visited);
 
         // Store in cache
-        self.imported_fixtures_cache.insert(
-            canonical_path.clone(),
-            (
-                content_hash,
-                current_version,
-                Arc::new(imported_fixtures.clone()),
-            ),
-        );
+        if traversal_starts_here {
+            self.imported_fixtures_cache.insert(
+                canonical_path.clone(),
+                (
+                    content_hash,
+                    current_version,
+                    Arc::new(imported_fixtures.clone()),
+                ),
+            );
+        }
 
         info!(
             "Found {} imported fixtures for {:?}: {:?}",
